@@ -558,6 +558,25 @@ pub fn main(args: &[String]) {
                 Err(e) => rep.disagree(&case, "model-driver", "", &e),
             }
         }
+        // model tie (Kotlin): the JNA declaration of every method the model renders equals the generated text
+        if backend == "kotlin" {
+            let line = crate::e2e::module_sexp(&m, "c07kt", "");
+            match crate::model::run_model("C07", &[line.clone()]) {
+                Ok(out) if out[0] != "bad-case" => {
+                    let frags: Vec<(String, String)> = out[0].split(" ;; ").filter_map(|f| f.split_once(" => ")).map(|(k, t)| (k.to_string(), tool::norm_ws(t))).collect();
+                    rep.count_n("kotlin-native-frags", frags.len());
+                    let mut outs = BTreeMap::new();
+                    outs.insert("kotlin".to_string(), b_out.clone());
+                    for (k, t) in &frags {
+                        for p in tool::check_frags(&outs, &[(k.clone(), t.clone())]) {
+                            rep.disagree(&case, "kotlin-native-signature", &p, t);
+                        }
+                    }
+                }
+                Ok(out) => rep.disagree(&case, "kotlin-model", &line, &out[0]),
+                Err(e) => rep.disagree(&case, "model-driver", "", &e),
+            }
+        }
         // functions
         for (ty_name, abi) in abi_names(&m) {
             rep.oracle_runs += 1;
